@@ -118,11 +118,12 @@ def shared_slots(sys_):
 
 class Op:
     def __init__(self, name, arity, enabled, run, inplace=False, target=None, mode='preserve', base=None,
-                 may_raise=False, consume=False):
+                 may_raise=False, consume=False, hands_back=None):
         self.name = name; self.arity = arity; self.enabled = enabled; self.run = run
         self.inplace = inplace; self.target = target; self.mode = mode
         self.may_raise = may_raise      # numerically conditioned routine: an exception disables the transition
         self.consume = consume          # overwrite=True variants that hand self's buffers to the results: self leaves the pool
+        self.hands_back = hands_back    # index of the argument that is documented to come back by identity as result 0 (the initial state heading a trajectory)
         self.base = base or name.split('(')[0]
 
 
@@ -216,6 +217,18 @@ def apply_transition(model, sys_, tr, check=True):
     results = flatten_tts(res)
     if check:
         fails = check_invariants(sys_, tgt, op.mode, results, op.base)
+        if not fails and not op.inplace:
+            # I6: an operation documented to return a new object must not hand back a live object (an operand) by identity,
+            # nor the same object twice; the initial state heading a returned trajectory is the one documented exception
+            for k_, t in enumerate(results):
+                if k_ == 0 and op.hands_back is not None and t is objs[op.hands_back]:
+                    continue
+                if any(t is o for o in sys_.objs):
+                    fails = [('identity:%s:result-is-a-live-operand' % op.base, '%s returned one of the live objects itself (not a new object)' % op.name)]
+                    break
+                if any(t is u for u in results[:k_]):
+                    fails = [('identity:%s:same-object-returned-twice' % op.base, '%s returned the same object in two positions' % op.name)]
+                    break
         if not fails and not op.inplace and getattr(model, 'recompute', True):
             fails = recompute_check(model, sys_, op, objs, res)
     if tgt is not None and not fails:
